@@ -2,6 +2,8 @@ import TdxModel.Proto
 import TdxModel.Drive.Client
 import TdxModel.Drive.Abi
 import TdxModel.Drive.Retry
+import TdxModel.Drive.Validate
+import TdxModel.Drive.Rtmr
 
 open Tdx Tdx.Proto Tdx.Drive
 
@@ -12,6 +14,10 @@ def dispatch (l : Line) : P String :=
   | "C09.parse" => c09parse l
   | "C09.ser" => c09ser l
   | "C20.get" => c20get l
+  | "C08.val" => c08val l
+  | "C14.conv" => c14conv l
+  | "C14.val" => c14val l
+  | "C17" => c17 l
   | op => .error s!"unknown op {op}"
 
 partial def loop (h : IO.FS.Stream) (out : IO.FS.Stream) (blobs : List (Nat × Bytes)) : IO Unit := do
